@@ -284,6 +284,15 @@ class Check:
                 self.proof_broken("tools/translate_proto.py: the protocol sources no longer have the table shape the "
                                   "translator accepts (%s): gen/ProtoTables.v cannot be regenerated" % e)
                 return False
+        if pid == "C09":
+            import translate_serialize
+            try:
+                translate_serialize.regenerate(REPO)
+            except (translate_serialize.ShapeError, OSError) as e:
+                self.proof_broken("tools/translate_serialize.py: the command constructors / length functions / serializers of "
+                                  "device/src/u3v/protocol/cmd.rs no longer have the shape the translator accepts (%s): "
+                                  "gen/SerializeSrc.v cannot be regenerated" % e)
+                return False
         if pid == "C10":
             import translate_chunks
             try:
@@ -325,7 +334,7 @@ class Check:
                                   "translator accepts (%s): gen/ElemNames.v cannot be regenerated" % e)
                 return False
         tr = {"C02": "tools/translate_bitmask.py (typed mini-Rust translator of `impl BitMask`, genapi/src/masked_int_reg.rs -> gen/BitMaskSrc.v) and lib/RustInt.v (debug-build semantics of the integer operations)",
-              "C08": "tools/translate_proto.py (protocol tables -> gen/ProtoTables.v)", "C09": "tools/translate_proto.py (protocol tables -> gen/ProtoTables.v)",
+              "C08": "tools/translate_proto.py (protocol tables -> gen/ProtoTables.v)", "C09": "tools/translate_proto.py (protocol tables -> gen/ProtoTables.v) and tools/translate_serialize.py (typed mini-Rust translator of the structs, the trait CommandScd and its four implementations, the constructors, the length functions and every serializer of device/src/u3v/protocol/cmd.rs -> gen/SerializeSrc.v; serializers become lists of write operations interpreted by model/SerOps.v; shape of write_bytes_le in impl/src/bytes_io.rs asserted) and lib/RustInt.v (debug-build semantics of the integer operations)",
               "C11": "tools/translate_proto.py (protocol tables -> gen/ProtoTables.v)",
               "C13": "tools/translate_decoders.py + tools/minirust.py (typed mini-Rust translator of the bit-level decoders, the bit macros, register_address and ParseBytes for BusSpeed of cameleon/src/u3v/register_map.rs -> gen/DecodersSrc.v) and lib/RustInt.v (debug-build semantics of the integer operations)",
               "C14": "tools/translate_decoders.py + tools/minirust.py (typed mini-Rust translator of genicam_file_version / file_type / compression_type of cameleon/src/u3v/register_map.rs -> gen/DecodersSrc.v) and lib/RustInt.v (debug-build semantics of the integer operations)",
